@@ -19,6 +19,8 @@ from pathlib import Path
 
 V = Path(__file__).resolve().parent.parent
 SEEDED = V / "seeded"
+# later waves of candidates are numbered after the earlier ones: --offset 3 stores out_C05/1 as seeded/C05-4
+OFFSET = int(next((a.split("=", 1)[1] for a in sys.argv if a.startswith("--offset=")), "0"))
 
 
 def sh(cmd, cwd=None, env=None, timeout=900):
@@ -31,7 +33,7 @@ def sh(cmd, cwd=None, env=None, timeout=900):
 
 def one(cand: Path) -> dict:
     prop = cand.parent.name.replace("out_", "")
-    n = cand.name
+    n = str(int(cand.name) + OFFSET)
     sid = f"{prop}-{n}"
     res = {"id": sid, "dir": str(cand)}
     wt = Path(tempfile.mkdtemp(prefix=f"seed_{sid}_", dir=os.environ.get("TMPDIR", "/tmp")))
@@ -88,8 +90,9 @@ def one(cand: Path) -> dict:
 
 
 def main() -> int:
-    root = Path(sys.argv[1])
-    wanted = sys.argv[2:]
+    argv = [a for a in sys.argv[1:] if not a.startswith("--")]
+    root = Path(argv[0])
+    wanted = argv[1:]
     cands = sorted(p for p in root.glob("out_*/[0-9]") if p.is_dir())
     if wanted:
         cands = [c for c in cands if f"{c.parent.name.replace('out_', '')}/{c.name}" in wanted]
